@@ -97,7 +97,13 @@ void h_parse_grammar (void)
 	case 2: SET_LINE (1, "k = 'x y'");   expect = "x y"; break;  /* single quotes */
 	case 3: SET_LINE (1, "k = \"\"  ;c"); expect = "";   break;   /* empty quoted value followed by a comment */
 	case 4: SET_LINE (1, "k = a=b");     expect = "a=b"; break;  /* text after the FIRST '=' */
-	default: SET_LINE (1, "k=''");        expect = "";   break;   /* empty single-quoted value */
+	case 5: SET_LINE (1, "k=''");        expect = "";   break;   /* empty single-quoted value */
+	/* byte-order marks in front of the first line are skipped (documented grammar: BOMs) */
+	case 6: SET_LINE (0, "\xEF\xBB\xBF[s]"); SET_LINE (1, "k=v"); expect = "v"; break;   /* UTF-8 */
+	case 7: SET_LINE (0, "\xFE\xFF[s]");     SET_LINE (1, "k=v"); expect = "v"; break;   /* UTF-16 BE */
+	case 8: SET_LINE (0, "\xFF\xFE[s]");     SET_LINE (1, "k=v"); expect = "v"; break;   /* UTF-16 LE */
+	/* a repeated key: the last assignment wins; a line before any section and a comment line contribute nothing */
+	default: SET_LINE (0, "x=1"); SET_LINE (1, "[s]"); SET_LINE (2, "k=a"); SET_LINE (3, ";k=c"); SET_LINE (4, "k=b"); g_file_nlines = 5; expect = "b"; break;
 	}
 	char path[2] = "p";
 	PIniFile *f = p_ini_file_new (path);
@@ -175,9 +181,19 @@ void h_getters_allocfail (void)
 	PList *l = p_ini_file_keys (f, "s"); if (l != NULL) CANARY ("listed"); free_str_list (l);
 #elif GETTER == 2
 	pchar *r = p_ini_file_parameter_string (f, "s", "k", NULL); if (r != NULL) CANARY ("string copied"); p_free (r);
-#else
+#elif GETTER == 3
 	PList *l = p_ini_file_parameter_list (f, "s", "k"); if (list_len (l) == 2) CANARY ("two items"); free_str_list (l);
+#else
+	/* C16: list conversion, allocation never fails: a longer item followed by shorter ones, repeated blanks */
+	g_alloc_may_fail = 0; p1->value = "{abc d  ef}";
+	PList *l = p_ini_file_parameter_list (f, "s", "k");
+	OBL (list_len (l) == 3 && str_eq (l->data, "abc") && str_eq (l->next->data, "d") && str_eq (l->next->next->data, "ef"), "list getter: the blank-separated items between the braces, each exactly as written");
+	if (list_len (l) == 3) CANARY ("three items"); free_str_list (l);
 #endif
 	OBL (g_allocs == g_frees, "C18/C20 getter: whichever allocation failed, nothing the getter allocated remains once its result is released");
+#if GETTER != 4
 	if (g_alloc_failed) CANARY ("an allocation failed");
+#else
+	CANARY ("end");
+#endif
 }
